@@ -827,8 +827,13 @@ pub fn run(t: &[&str]) -> String {
             if let DecodedMap::Regular(sm0) = &d1 {
                 let steps: [(&str, Option<&str>); 4] = [("root=x/", Some("x/")), ("root=none", None), ("root=/abs", Some("/abs")), ("root=empty", Some(""))];
                 let mut sm = sm0.clone();
-                for (what, root) in steps {
+                for (k, (what, root)) in steps.into_iter().enumerate() {
                     sm.set_source_root(root);
+                    if sm.get_source_count() > 0 {
+                        // a renamed source is written under its new raw name, with or without a root in force
+                        let i = (k as u32) % sm.get_source_count();
+                        sm.set_source(i, &format!("renamed{k}.js"));
+                    }
                     let dm = DecodedMap::Regular(sm.clone());
                     let before = obs(&dm);
                     let after = match encode(&dm).ok().and_then(|b| decode_slice(&b).ok()) {
@@ -837,6 +842,38 @@ pub fn run(t: &[&str]) -> String {
                     };
                     if before != after {
                         return format!("err setter-roundtrip-differs {}", what);
+                    }
+                }
+            }
+            // a Hermes map that went through `rewrite` (sources renumbered in order of first use, unreferenced ones
+            // dropped) is a Hermes map like any other: written and read back, every token still has the same scope
+            if let DecodedMap::Hermes(smh) = &d1 {
+                if let Ok(rw) = smh.clone().rewrite(&sourcemap::RewriteOptions::default()) {
+                    // (the writer drops exact consecutive duplicates: compare the views with those removed)
+                    let scopes = |h: &sourcemap::SourceMapHermes| -> Vec<String> {
+                        let mut v: Vec<String> = vec![];
+                        for t in h.tokens() {
+                            let r = t.get_raw_token();
+                            // hidden fields of a source-less token are not part of the view (wire normal form)
+                            let e = if t.has_source() {
+                                format!("{}:{}:{}:{}:{:?}:{:?}:{:?}", r.dst_line, r.dst_col, r.src_line, r.src_col, t.get_source(), t.get_name(), h.get_scope_for_token(t))
+                            } else {
+                                format!("{}:{}:~:{:?}", r.dst_line, r.dst_col, h.get_scope_for_token(t))
+                            };
+                            if v.last() != Some(&e) {
+                                v.push(e);
+                            }
+                        }
+                        v
+                    };
+                    let before = scopes(&rw);
+                    let mut buf = vec![];
+                    let after = match rw.to_writer(&mut buf).ok().and_then(|_| sourcemap::SourceMapHermes::from_slice(&buf).ok()) {
+                        Some(h2) => scopes(&h2),
+                        None => return "err rewritten-hermes-unreadable".into(),
+                    };
+                    if before != after {
+                        return "err rewritten-hermes-roundtrip-differs".into();
                     }
                 }
             }
@@ -865,6 +902,27 @@ pub fn run(t: &[&str]) -> String {
         }
         "doc.enc" => {
             let b1 = match encode(&d1) { Ok(b) => b, Err(e) => return e };
+            // 'sources' carries the map's raw names and 'sourceRoot' its root also after both were changed through the
+            // setters (the map keeps a raw and a prefixed table; the encoder writes the raw one plus the root)
+            if let DecodedMap::Regular(sm0) = &d1 {
+                if sm0.get_source_count() > 0 {
+                    let mut sm = sm0.clone();
+                    sm.set_source_root(Some("x/y"));
+                    let last = sm.get_source_count() - 1;
+                    sm.set_source(last, "renamed.js");
+                    let written = encode(&DecodedMap::Regular(sm)).ok().and_then(|b| serde_json::from_slice::<serde_json::Value>(&b).ok());
+                    let ok = match &written {
+                        Some(v) => {
+                            v.get("sourceRoot").and_then(|x| x.as_str()) == Some("x/y")
+                                && v.get("sources").and_then(|x| x.as_array()).and_then(|a| a.get(last as usize)).and_then(|x| x.as_str()) == Some("renamed.js")
+                        }
+                        None => false,
+                    };
+                    if !ok {
+                        return "err setter-then-encode-differs".into();
+                    }
+                }
+            }
             match serde_json::from_slice::<OV>(&b1) {
                 Ok(v) => format!("ok {}", enc_view(&v)),
                 Err(_) => "ok ?notjson".into(),
